@@ -51,6 +51,12 @@ class Probe:
 
 
 def _fn(name, args, ret, expr):
+    """`expr` is an expression, or "declarations @@ statements (; separated) @@ expression" ({n} = the function name), so that
+    the run-time operand can first be moved to a memory or storage variable"""
+    if "@@" in expr:
+        decl, body, e = (x.strip().replace("{n}", name) for x in expr.split("@@"))
+        stmts = "".join(f"    {st.strip()}\n" for st in body.split(";") if st.strip())
+        return f"{decl}\n@external\ndef {name}({args}) -> {ret}:\n{stmts}    return {e}\n"
     return f"@external\ndef {name}({args}) -> {ret}:\n    return {expr}\n"
 
 
